@@ -339,7 +339,9 @@ def shared_file_case(pr):
     if not _run_ok(pr, "gen", "lint"):
         return None
     pr.clear_log()
-    pr.run("gen", "lint")       # lint may legitimately run again (gen rewrote its input after lint looked at it)
+    r = pr.run("gen", "lint")   # lint may legitimately run again (gen rewrote its input after lint looked at it)
+    if "s gen" in pr.log():
+        return {"property": "C03", "expected": "gen completed and nothing it declares changed since: the second invocation skips it (lint may run again: gen rewrote its input)", "observed": "gen ran again; log %s" % pr.log(), "zinoma": r.brief()}
     pr.clear_log()
     r = pr.run("gen", "lint")
     if "s gen" in pr.log():
@@ -452,6 +454,56 @@ def sibling_import_case(pr):
     return None
 
 
+def nested_filters_case(pr):
+    """two resources of one target: a filtered path and an unfiltered path nested below it (and the other way round)"""
+    pr.write("pkg/a.json", "{}")
+    pr.write("pkg/api/dist/blob.bin", "b1")
+    pr.write("docs/img/logo.png", "l1")
+    pr.write("docs/readme.md", "r1")
+    t = _t([{"paths": ["pkg"], "extensions": ["json"]}, {"paths": ["pkg/api/dist"]}, {"paths": ["docs"]}, {"paths": ["docs/img"], "extensions": ["png"]}], None)
+    pr.write("zinoma.yml", yml({"t": t}))
+    if not _run_ok(pr, "t"):
+        return None
+    pr.clear_log()
+    pr.run("t")
+    if _ran(pr):
+        return None
+    for f in ("pkg/api/dist/blob.bin", "docs/img/logo.png", "pkg/a.json", "docs/readme.md"):
+        pr.edit(f, "changed-" + f)
+        pr.clear_log()
+        r = pr.run("t")
+        if not _ran(pr):
+            return {"property": ["C15", "C02", "C13"], "expected": "%s belongs to a declared files resource (nested paths with different filters): rewriting it forces the build" % f, "observed": "skipped", "zinoma": r.brief()}
+    return None
+
+
+def dot_and_sibling_case(pr):
+    """paths `.` and `../shared` of a project in a sub-directory"""
+    pr.write("shared/lib.txt", "l1")
+    pr.write("app/main.txt", "m1")
+    t = _t([{"paths": [".", "../shared"], "extensions": ["txt"]}], [{"paths": [".", "../dist"], "extensions": ["gen"]}], body="mkdir -p ../dist && cat main.txt ../shared/lib.txt > ../dist/bundle.gen")
+    pr.write("app/zinoma.yml", yml({"t": t}))
+    app = pr.path("app")
+    r = pr.run("t", cwd=app)
+    if r.rc != 0:
+        return None
+    pr.clear_log()
+    pr.run("t", cwd=app)
+    if _ran(pr):
+        return None
+    pr.edit("shared/lib.txt", "l2-longer")
+    pr.clear_log()
+    r = pr.run("t", cwd=app)
+    if not _ran(pr):
+        return {"property": ["C15", "C02"], "expected": "../shared/lib.txt is below the listed path ../shared: rewriting it forces the build", "observed": "skipped", "zinoma": r.brief()}
+    r = pr.run("--clean", cwd=app)
+    if pr.exists("dist/bundle.gen"):
+        return {"property": ["C15", "C12"], "expected": "--clean removes ../dist/bundle.gen (output paths [., ../dist], extensions [gen])", "observed": "still there", "zinoma": r.brief()}
+    if not pr.exists("shared/lib.txt") or not pr.exists("app/main.txt"):
+        return {"property": "C12", "expected": "--clean removes nothing but outputs and state", "observed": "inputs deleted"}
+    return None
+
+
 def cases(seed):
     C = lambda n, fn, what: Case("incr", n, fn, what)
     out = [
@@ -480,6 +532,8 @@ def cases(seed):
         C("per-target-state", per_target_state_case, "state per target"),
         C("imported-same-decision", imported_same_decision_case, "imported target decided identically however reached"),
         C("two-producers-same-cmd", two_producers_same_cmd_case, "same command text in two producers"),
+        C("nested-filters", nested_filters_case, "nested paths with different extension filters"),
+        C("dot-and-sibling-paths", dot_and_sibling_case, "paths . and ../shared"),
         C("overlapping-resources", overlapping_resources_case, "one file through two resources"),
         C("concurrent-saves", concurrent_saves_case, "ten targets saving their records at once"),
         C("dep-and-output", dep_and_output_case, "producer under dependencies and as X.output"),
